@@ -22,7 +22,7 @@ LEAN_MODULES = ['FalconModel.Reader', 'FalconModel.ReaderExtra', 'FalconModel.Re
                 # nested delimited readers (both readers, any depth); ReaderMap / MultipartBridge / MultipartAsync* are shared with C13
                 'FalconModel.ReaderMap', 'FalconModel.MultipartBridge', 'FalconModel.ReaderNested', 'FalconModel.ReaderNestedProofs',
                 'FalconModel.MultipartAsync', 'FalconModel.MultipartAsyncReaderProofs', 'FalconModel.AsyncReaderNested',
-                'FalconModel.AsyncReaderNestedProofs']
+                'FalconModel.AsyncReaderNestedProofs', 'FalconModel.AsyncReaderGuard', 'FalconModel.AsyncReaderGuardProofs']
 DRIVERS = ['rddriver', 'ardriver']
 THEOREMS = [
     # --- headline statements (sync reader, any lawful source = every chunking / short-read pattern)
@@ -59,6 +59,8 @@ THEOREMS = [
     # --- AsyncReaderProofs.lean: the async reader model ARd (the one ardriver runs) refines the same flat cursor, every chunking
     'ARd.async_reader_refines_flat_cursor', 'ARd.async_history_refines_cursor', 'ARd.asyncStep_refines',
     'ARd.async_reader_iter_refines_flat_cursor', 'ARd.async_history_iter_refines_cursor', 'ARd.iterate_refines', 'ARd.iterLoop_spec',
+    'ARg.guarded_async_reader_refines_flat_cursor', 'ARg.guarded_n_history_refines_cursor', 'ARg.gRun_admitted', 'ARg.gRun_refused',
+    'ARg.admitted_iter_count', 'ARg.refused_iter_unchanged', 'ARg.notAllowed_iff', 'ARg.started_after', 'ARg.mem_admitted', 'ARg.run_iterStep', 'ARg.run_nStep',
     'ARd.fresh_async', 'ARd.tell_total', 'ARd.eof_end', 'ARd.eof_after_drain',
     'ARd.read_refines', 'ARd.readall_refines', 'ARd.peek_refines', 'ARd.readUntil_refines', 'ARd.pipeUntil_refines',
     'ARd.pipe_refines', 'ARd.exhaust_refines', 'ARd.pipe_spec', 'ARd.until_tail',
@@ -143,6 +145,11 @@ STATEMENTS = {
     'ARd.asyncStep_refines': 'one public operation = one Rd.cursorStep (same observation, same remaining text), invariant, chunk size and tell()+len(rest) preserved',
     'ARd.async_history_iter_refines_cursor': 'histories that may also iterate (async for, abandoned after k chunks): every observation is accepted by the flat cursor in turn - ordinary operations deterministically as above, an iteration as ANY chunking of the next bytes that is shorter than k chunks only at the end of the data - and the cursor ends at exactly what the reader still has to deliver',
     'ARd.async_reader_iter_refines_flat_cursor': 'the same from construction over any list of source chunks, with tell() = cursor position',
+    'ARg.guarded_async_reader_refines_flat_cursor': 'the async root reader WITH its _iteration_started guard (the machine ardriver runs: every line goes through ARg.gStep), from construction over any list of source chunks, chunk size > 0, for every history that may ask for an iteration any number of times: the observations other than OperationNotAllowed are accepted one by one by the flat cursor over the concatenated data as the history of the admitted operations (the history with every iteration after the first erased), the cursor ends at what the reader still has to deliver, tell() is the cursor position, and OperationNotAllowed is raised exactly for the iterations after the first',
+    'ARg.guarded_n_history_refines_cursor': 'the same for a reader over ANY lawful chunk source from any state satisfying the invariant (a delimited child at any depth; every reader object has its own flag, given as part of the state): accepted by the flat cursor over the reader\'s text, invariant / chunk size / tell()+len(rest) preserved, refusals exactly the iterations after the flag was set',
+    'ARg.gRun_admitted': 'generic in the guarded machine: a guarded history is the unguarded history of the admitted operations - same reader-side observations, same final reader state',
+    'ARg.admitted_iter_count': 'at most one iteration of a reader object ever reaches the reader (none once the flag is set)',
+    'ARg.refused_iter_unchanged': 'a refused iteration leaves the reader and its flag exactly as they were (nothing consumed)',
     'ARd.iterate_refines': 'async-for over the reader, stopped after k chunks: the chunks concatenate to the next bytes of the flat text, the rest remains, fewer than k chunks only if the text is used up',
     'ARd.step_spec': 'one resumption of either wrapper generator (_iter_with_buffer / _iter_delimited) at any of its nine program counters, from any state satisfying the generator invariant GI: a yield hands out the next bytes of the flat text and stays within the generator\'s share (everything / up to the first occurrence of the delimiter), StopAsyncIteration comes only when the share is used up, ValueError never for a valid delimiter; the recursion fuel fuelOf of the model is sufficient',
     'ARd.dLoop_spec': 'the `async for chunk in self._source` loop of _iter_delimited from any state with position 0 and no complete delimiter in the buffer (all five exits: source exhausted, no delimiter across the border, delimiter straddling the border, delimiter in the merged buffer, continue), by induction on the chunks still to come',
@@ -220,7 +227,7 @@ PARTIAL = ('Proved for the sync reader over any lawful source (= every chunking 
            'An.delimited_source_lawful, An.async_nested_history_refines_cursor, An.async_nested_depth_refines, with An.toMa_asyncStep: the root model ARd is the source-generic transcription at the concrete source): '
            'a child is a flat cursor over the parent text up to the first delimiter, the parent is left exactly at child-cursor + bytes-held-by-the-child, never past the delimiter, at the delimiter when the child was drained. '
            'Not proved (carried by correspondence + oracle): operations addressed to a parent WHILE a child of it is alive (outside the statement; compared with the sync model only); that the drivers\' flat delimit/pop '
-           'protocol is runProg/runAProg of the corresponding program (same primitives, by inspection); the _iteration_started guard of the async reader (a second iteration raises; not modelled); '
+           'protocol is runProg/runAProg of the corresponding program (same primitives, by inspection); '
            'async root sources that are not finite chunk lists (a source raising an exception); size arguments < -1 of the sync reader.')
 JOBS = {'quick': 4, 'thorough': 16}
 
@@ -424,7 +431,7 @@ def _render(o):
         return 'lines' + ''.join(' ' + x.hex() for x in o[1]) + tag
     if k == 'chunks':
         return 'chunks' + ''.join(' ' + (x.hex() or '-') for x in o[1]) + tag
-    return {'unit': 'unit', 'delim': 'err delim', 'value': 'err value'}.get(k, k.upper())
+    return {'unit': 'unit', 'delim': 'err delim', 'value': 'err value', 'notallowed': 'err notallowed'}.get(k, k.upper())
 
 
 def _hx(b):
@@ -981,7 +988,9 @@ async def _acall(alarm, DE, r, op):
         return ('hang',)
     except DE:
         return ('delim',)
-    except ValueError:
+    except ValueError as e:
+        if type(e).__name__ == 'OperationNotAllowed':        # falcon.errors.OperationNotAllowed is a ValueError
+            return ('exc', 'OperationNotAllowed', str(e)[:80])
         return ('value',)
     except Exception as e:  # noqa
         if type(e).__name__ == 'CancelledError':
@@ -1051,12 +1060,14 @@ async def _run_async_body(env, plan, next_op, sess, st):
             if modelled:
                 sess.op('pop', 'ok')
             continue
+        refused = False
         if k == 'iter':
-            if stack[-1][3]:
-                continue              # a second iteration raises OperationNotAllowed (guard, not part of the statement)
+            # the _iteration_started guard (ARg.gStep): every reader object hands out an iterator once; a later __aiter__
+            # raises OperationNotAllowed and must leave the reader where it was (the cursor does not move)
+            refused = stack[-1][3]
             stack[-1][3] = True
             if modelled:
-                tags.add('iter_modelled' if len(stack) == 1 else 'nested_iter_modelled')   # ARi.iterate / An.iterate: the chunks of the iteration are compared with the model
+                tags.add(('iter_modelled' if len(stack) == 1 else 'nested_iter_modelled') if not refused else 'iter_refused_modelled')   # ARi.iterate / An.iterate: the chunks of the iteration are compared with the model
         if k in ('ru', 'pu') and not 1 <= len(op[1]) <= chunk:
             if not modelled or plan.get('grid'):
                 continue
@@ -1071,8 +1082,19 @@ async def _run_async_body(env, plan, next_op, sess, st):
         except Exception as e:  # noqa
             failed = f'tell()/eof raised {type(e).__name__}'
             break
+        if refused and obs[0] == 'exc' and obs[1] == 'OperationNotAllowed':
+            obs = ('notallowed',)
         if modelled:
             sess.op(_line(op), _render(obs) + f" tell={tell} eof={'true' if eof else 'false'}")
+        if refused and obs[0] in ('notallowed', 'chunks') and spec_on:
+            # statement oracle: a refused operation is no operation of the cursor - nothing may be consumed by it. (Were the
+            # iteration granted instead, it is judged below like any other iteration: the guard itself is the model's subject.)
+            if obs[0] == 'notallowed':
+                if tell not in cur.ps:
+                    failed = f'after a refused second iteration: tell() = {tell}, the cursor is at {sorted(cur.ps)}'
+                elif eof and tell != len(cur.d):
+                    failed = f'eof is True at position {tell} of {len(cur.d)} after a refused second iteration'
+                continue
         if obs[0] in ('ok', 'chunks') and obs[1]:
             st['nontriv'] = True
         if obs[0] == 'hang':
@@ -1178,6 +1200,8 @@ def _async_chooser(rnd, plan):
             return ('ru', d, rnd.choice(near if near and rnd.random() < 0.2 else usizes), rnd.choice([0, 0, 1])) if k == 'ru' else ('pu', d, rnd.choice([0, 1]))
         if k == 'iter':
             return ('iter', rnd.randint(1, 3))
+        if iterated and nest and rnd.random() < 0.12:
+            return ('iter', rnd.randint(1, 3))      # ask an already iterated reader object again (the guard)
         return (k,)
     return next_op
 
@@ -1347,5 +1371,5 @@ LEVEL_TEXT = ('Machine-checked refinement proofs (Lean 4) for the synchronous Bu
               'compares return values, exceptions, the exact sizes requested from the source (sync) and tell()/eof (async); an independent flat-cursor oracle written from the statement '
               'decides failing inputs for both readers, including two levels of delimited sub-readers.')
 LEVEL_NOTE = ('Trusted: Lean kernel + standard axioms, the correspondence harness, the Cur oracle, the delimit/pop bookkeeping of the two drivers. Partial: operations on a parent while its child is alive, '
-              'the _iteration_started guard and raising async sources are not covered by theorems.')
+              'raising async sources are not covered by theorems.')
 TECHNIQUE = 'Lean 4 refinement proof (sync reader model over any lawful source, async reader model over any chunk list -> one flat cursor) + differential correspondence model vs. real code + statement oracle (flat cursor with sub-cursors)'
